@@ -16,8 +16,10 @@ lines and then checks
                         OpenACC compute construct inside another one.
   R3 collapse         : ``collapse(n)`` is followed by n perfectly nested DOs
                         (nothing but the next DO in each of the n-1 outer bodies).
-  R4 matching         : every begin has its end at the same block level, every
-                        loop directive is attached to a DO.
+  R4 matching         : every begin has its end at the same block level (the
+                        end directive of an OpenMP loop-associated construct is
+                        optional, as in OpenMP), every loop directive is
+                        attached to a DO.
 
 Directives the property text and OpenMP both allow are NOT flagged: orphaned
 taskloop/single/master, target anywhere, parallel inside target and so on are left
